@@ -23,6 +23,8 @@
 #include <functional>
 #include <unistd.h>
 #include "vf.hpp"
+#define CRASHNOTE_NO_ASSERT_HOOK
+#include "crashnote.hpp"
 #include <rapidcheck.h>
 
 extern "C" {
@@ -74,7 +76,7 @@ static const char *cohname(int c) { return c == shim_INVALID() ? "INVALID" : c =
 
 static Result run_case(const Case &c) {
     Result R;
-    g_current = c.repr(); g_step = 0;
+    g_current = c.repr(); g_step = 0; crashnote::set(g_current);
     const int n = c.ndev;
     shim_set_devices(n);
     parsec_data_t *data = shim_data_new();
@@ -235,6 +237,7 @@ int main(int argc, char **argv) {
         if (r.err.empty()) { printf("REPLAY-PASS\n"); return 0; }
         printf("REPLAY-FAIL %s\n", r.err.c_str()); return 1;
     }
+    crashnote::install();
     if (mode == "exh") {         // exh ndev init L firstdev firstmode   (the first access fixes the partition)
         Case c; c.ndev = atoi(argv[2]); c.init = atoi(argv[3]); c.fast = g_fast ? 1 : 0; int L = atoi(argv[4]);
         std::string bad; bool ok;
